@@ -19,6 +19,8 @@ def parseForm (s : String) : Option Form :=
       if rs.all Option.isSome then some (.deff f (rs.filterMap id)) else none
   | ["defs", f, x] => some (.defs f x)
   | ["set", x, n] => n.toInt?.map (Form.set x)
+  | ["defn", x, k] => k.toInt?.map (Form.defn x)
+  | ["setn", x, k] => k.toInt?.map (Form.setn x)
   | ["call", f] => some (.call f)
   | ["calls", f, n] => n.toInt?.map (Form.calls f)
   | ["read", x] => some (.read x)
